@@ -209,3 +209,77 @@ proof fn lemma_dcell_prefix(w1: Seq<char>, k1: Seq<CharClass>, w2: Seq<char>, k2
         if 0 < l1 <= i - 1 && 0 < l2 <= j - 1 { lemma_dcell_prefix(w1, k1, w2, k2, l1 - 1, l2 - 1, a, b); }
     }
 }
+
+// DL-udl: never less than half the unrestricted Damerau-Levenshtein distance.  `udl` is the unit-cost unrestricted
+// Damerau-Levenshtein distance in its standard dynamic-programming form (Lowrance-Wagner: insertion, deletion, substitution
+// at cost 1; a transposition of the two characters last seen at l1 / l2 costs the characters skipped in between plus 1).
+// The weighted recurrence has the same shape with every cost, in half units, at least the unit cost.
+pub open spec fn udl(w1: Seq<char>, w2: Seq<char>, i: int, j: int) -> int
+    decreases imax(i, 0) + imax(j, 0)
+{
+    if i <= 0 { imax(j, 0) } else if j <= 0 { i } else {
+        let add = 1 + udl(w1, w2, i, j - 1);
+        let del = 1 + udl(w1, w2, i - 1, j);
+        let sub = (if w1[i - 1] == w2[j - 1] { 0int } else { 1int }) + udl(w1, w2, i - 1, j - 1);
+        let l1 = last_occ(w1, w2[j - 1], i - 1);
+        let l2 = last_occ(w2, w1[i - 1], j - 1);
+        let m3 = imin(add, imin(del, sub));
+        if 0 < l1 <= i - 1 && 0 < l2 <= j - 1 {
+            imin(m3, (i - 1 - l1) + (j - 1 - l2) + 1 + udl(w1, w2, l1 - 1, l2 - 1))
+        } else { m3 }
+    }
+}
+proof fn lemma_bs_ge(k: Seq<CharClass>, n: int)
+    requires 0 <= n
+    ensures bs(k, n) >= n
+    decreases n
+{ if n > 0 { lemma_bs_ge(k, n - 1); } }
+proof fn lemma_dcell_ge_udl(w1: Seq<char>, k1: Seq<CharClass>, w2: Seq<char>, k2: Seq<CharClass>, i: int, j: int)
+    requires 0 <= i, 0 <= j
+    ensures dcell(w1, k1, w2, k2, i, j) >= udl(w1, w2, i, j)
+    decreases i + j
+{
+    if i <= 0 { lemma_bs_ge(k2, j); } else if j <= 0 { lemma_bs_ge(k1, i); } else {
+        lemma_dcell_ge_udl(w1, k1, w2, k2, i, j - 1);
+        lemma_dcell_ge_udl(w1, k1, w2, k2, i - 1, j);
+        lemma_dcell_ge_udl(w1, k1, w2, k2, i - 1, j - 1);
+        let l1 = last_occ(w1, w2[j - 1], i - 1);
+        let l2 = last_occ(w2, w1[i - 1], j - 1);
+        if 0 < l1 <= i - 1 && 0 < l2 <= j - 1 { lemma_dcell_ge_udl(w1, k1, w2, k2, l1 - 1, l2 - 1); }
+        assert(edit_cost(w2, k2, j - 1) >= 1 && edit_cost(w1, k1, i - 1) >= 1);
+        assert(sub_cost(w1, k1, i - 1, w2, k2, j - 1) >= (if w1[i - 1] == w2[j - 1] { 0int } else { 1int }));
+    }
+}
+
+// DL-mono (doubled-letter part): the doubled-letter discount can only lower the distance.  `dcell_nd` is the recurrence without
+// that discount (insertion / deletion cost = the class cost alone).
+pub open spec fn dcell_nd(w1: Seq<char>, k1: Seq<CharClass>, w2: Seq<char>, k2: Seq<CharClass>, i: int, j: int) -> int
+    decreases imax(i, 0) + imax(j, 0)
+{
+    if i <= 0 { bs(k2, j) } else if j <= 0 { bs(k1, i) } else {
+        let add = ch(k2[j - 1]) + dcell_nd(w1, k1, w2, k2, i, j - 1);
+        let del = ch(k1[i - 1]) + dcell_nd(w1, k1, w2, k2, i - 1, j);
+        let sub = sub_cost(w1, k1, i - 1, w2, k2, j - 1) + dcell_nd(w1, k1, w2, k2, i - 1, j - 1);
+        let l1 = last_occ(w1, w2[j - 1], i - 1);
+        let l2 = last_occ(w2, w1[i - 1], j - 1);
+        let m3 = imin(add, imin(del, sub));
+        if 0 < l1 <= i - 1 && 0 < l2 <= j - 1 {
+            imin(m3, (i - 1 - l1) + (j - 1 - l2) + 1 + dcell_nd(w1, k1, w2, k2, l1 - 1, l2 - 1))
+        } else { m3 }
+    }
+}
+proof fn lemma_dcell_le_nd(w1: Seq<char>, k1: Seq<CharClass>, w2: Seq<char>, k2: Seq<CharClass>, i: int, j: int)
+    requires 0 <= i, 0 <= j
+    ensures dcell(w1, k1, w2, k2, i, j) <= dcell_nd(w1, k1, w2, k2, i, j)
+    decreases i + j
+{
+    if i > 0 && j > 0 {
+        lemma_dcell_le_nd(w1, k1, w2, k2, i, j - 1);
+        lemma_dcell_le_nd(w1, k1, w2, k2, i - 1, j);
+        lemma_dcell_le_nd(w1, k1, w2, k2, i - 1, j - 1);
+        let l1 = last_occ(w1, w2[j - 1], i - 1);
+        let l2 = last_occ(w2, w1[i - 1], j - 1);
+        if 0 < l1 <= i - 1 && 0 < l2 <= j - 1 { lemma_dcell_le_nd(w1, k1, w2, k2, l1 - 1, l2 - 1); }
+        assert(edit_cost(w2, k2, j - 1) <= ch(k2[j - 1]) && edit_cost(w1, k1, i - 1) <= ch(k1[i - 1]));
+    }
+}
